@@ -3,7 +3,7 @@
     Batched::new (limit 0 |-> 1, prefetch 0 |-> 1) + draining the iterator, for an
     arbitrary item type with size function [size]; [o] is the oracle for the rng
     ([oracle_guard]: shuffle permutes, random_range(0..m) < m). *)
-From TU Require Import Base C06_Model C06_Subseq C06_Proofs C06_Loop C06_Top.
+From TU Require Import Base C06_Model C06_Subseq C06_Proofs C06_Loop C06_Top C06_Agree.
 Require Import Permutation.
 
 (** Termination: for every oracle in range the fuel (one call of next() per item, plus
@@ -93,6 +93,79 @@ Theorem check_sound : forall v out, check_C06 v out = true ->
 Proof. exact check_sound_l. Qed.
 Print Assumptions check_sound.
 
+(** ** What acceptance by the correspondence relation [agree_C06] means.
+
+    One call of build_batch reads the oracle at ONE argument: in shuffle mode
+    [shuf o t n] with n = [shuf_arg] = the buffer length after the fill (only if n > 0), in
+    sort+shuffle mode [pick o t m] with m = [pick_arg] = the number of sub-sequences (only if
+    m > 0); two oracles that agree there give the same result. *)
+Theorem build_batch_reads : forall (A : Type) (size : A -> nat) sort shuffle L P ty o o' t (rest buf : list A),
+  (sort = false -> shuffle = true -> 0 < shuf_arg size L P ty rest buf ->
+     shuf o t (shuf_arg size L P ty rest buf) = shuf o' t (shuf_arg size L P ty rest buf)) ->
+  (sort = true -> shuffle = true -> 0 < pick_arg size L P ty rest buf ->
+     pick o t (pick_arg size L P ty rest buf) = pick o' t (pick_arg size L P ty rest buf)) ->
+  build_batch size sort shuffle L P ty o t rest buf = build_batch size sort shuffle L P ty o' t rest buf.
+Proof. exact @build_batch_reads_l. Qed.
+Print Assumptions build_batch_reads.
+
+(** Any oracle made total by [sanitize] (in-range answers kept, identity selection sequence /
+    index 0 elsewhere) is in range, and a run that succeeded is unchanged by it. *)
+Theorem sanitize_ok : forall (A : Type) (size : A -> nat) o,
+  oracle_guard (sanitize o) /\
+  forall sort shuffle L P ty fuel t (rest buf : list A) bs,
+    batches_loop size sort shuffle L P ty o fuel t rest buf = Ok bs ->
+    batches_loop size sort shuffle L P ty (sanitize o) fuel t rest buf = Ok bs.
+Proof. exact @sanitize_ok_l. Qed.
+Print Assumptions sanitize_ok.
+
+(** The glued oracle: call t is answered by the oracle the replay reconstructed for call t
+    (at the buffer length / sub-sequence count actually used), everything else by the
+    default.  If the replay accepts the implementation's batch sequence, this ONE oracle
+    is in range and [batches] under it returns exactly that batch sequence (positions
+    resolved to items). *)
+Theorem agree_sound_glued : forall v m i, agree_C06 v m i = true ->
+  oracle_guard (glued_oracle v i) /\
+  run_with (glued_oracle v i) v = Ok (map (map (lookup (v_items v))) (v_batches (v_nth 0 i))).
+Proof. exact agree_sound_glued_l. Qed.
+Print Assumptions agree_sound_glued.
+
+Theorem agree_sound : forall v m i, agree_C06 v m i = true ->
+  exists o, oracle_guard o /\
+    batches isize (v_bool (v_nth 0 v)) (v_bool (v_nth 1 v)) (v_nat (v_nth 2 v)) (v_nat (v_nth 3 v))
+            (v_ty (v_nth 4 v)) o (v_items v)
+    = Ok (map (map (lookup (v_items v))) (v_batches (v_nth 0 i))).
+Proof. exact agree_sound_l. Qed.
+Print Assumptions agree_sound.
+
+(** Exact line: if the model run with the decisions drawn from the seed ([o_obs], which
+    answers ONLY at the recorded buffer length / sub-sequence count of each call) emits the
+    implementation's batch sequence, then so does the total in-range oracle [sanitize (o_obs orc)]. *)
+Theorem exact_sound : forall v i, exact_ok v i = true ->
+  exists orc, v_obs (v_nth 2 i) = Some orc /\
+    run_with (o_obs orc) v = Ok (map (map (lookup (v_items v))) (v_batches (v_nth 0 i))) /\
+    oracle_guard (sanitize (o_obs orc)) /\
+    run_with (sanitize (o_obs orc)) v = Ok (map (map (lookup (v_items v))) (v_batches (v_nth 0 i))).
+Proof. exact exact_sound_l. Qed.
+Print Assumptions exact_sound.
+
+(** Transfer: every pinned statement about [batches] holds of an implementation output the
+    correspondence accepted (derived through [agree_sound] and batches_partition /
+    batches_nonempty / batches_limit / plain_order / plain_greedy, not through [check_C06]). *)
+Theorem agree_transfers : forall v m i, agree_C06 v m i = true ->
+  let items := v_items v in
+  let ty := v_ty (v_nth 4 v) in
+  let lm := v_nat (v_nth 3 v) in
+  let bs := map (map (lookup items)) (v_batches (v_nth 0 i)) in
+  Permutation (concat bs) items /\
+  Forall (fun b => b <> []) bs /\
+  Forall (fun b => 1 < length b -> limit isize ty b <= Nat.max lm 1) bs /\
+  (v_bool (v_nth 0 v) = false -> v_bool (v_nth 1 v) = false ->
+   concat bs = items /\
+   forall k b b' x, nth_error bs k = Some b -> nth_error bs (S k) = Some (x :: b') ->
+     Nat.max lm 1 < limit isize ty (b ++ [x])).
+Proof. exact agree_transfers_l. Qed.
+Print Assumptions agree_transfers.
+
 (** Non-vacuity: an oracle in range; concrete runs (items = (position, size)). *)
 Example oracle_guard_witness : oracle_guard o_default.
 Proof. exact o_default_guard. Qed.
@@ -101,4 +174,38 @@ Example plain_run : batches isize false false 1 4 Padded o_default (mk_items [3;
 Proof. vm_compute. reflexivity. Qed.
 Example sort_shuffle_run : batches isize true true 2 3 BatchSize o_default (mk_items [3;1;2;5;1;1;4;2])
   = Ok [[(1, 1); (4, 1); (5, 1)]; [(2, 2); (7, 2); (0, 3)]; [(6, 4); (3, 5)]].
+Proof. vm_compute. reflexivity. Qed.
+
+(** Concrete shuffled runs of the real crate (seed 3 / seed 9) with the decisions the harness
+    drew from ChaCha8Rng::seed_from_u64: accepted on both lines; the same batches in an order
+    that another oracle would explain are accepted by the replay but not by the exact line; a
+    batch that takes an item before it was in the buffer is rejected by both. *)
+Local Open Scope Z_scope.
+Definition ex_in_shuffle : val := L [I 0; I 1; I 2; I 6; I 1; I 3; L [I 1; I 2; I 3; I 1; I 2; I 0; I 1; I 2]].
+Definition ex_obs_shuffle : val :=
+  L [L [L [I 5; L [I 2; I 1; I 0; I 1; I 0]]; L [I 5; L [I 1; I 1; I 0; I 1; I 0]]; L [I 3; L [I 2; I 1; I 0]]; L [I 1; L [I 0]]]].
+Definition ex_out_shuffle : val :=
+  L [L [L [I 3; I 4; I 0]; L [I 6; I 7]; L [I 1; I 5]; L [I 2]]; I 1; ex_obs_shuffle].
+Example agree_shuffled_run : agree_C06 ex_in_shuffle (run_C06 ex_in_shuffle) ex_out_shuffle = true.
+Proof. vm_compute. reflexivity. Qed.
+Example glued_oracle_shuffled_run :
+  run_with (glued_oracle ex_in_shuffle ex_out_shuffle) ex_in_shuffle
+  = Ok [[(3, 1); (4, 2); (0, 1)]; [(6, 1); (7, 2)]; [(1, 2); (5, 0)]; [(2, 3)]]%nat.
+Proof. vm_compute. reflexivity. Qed.
+Example exact_rejects_other_valid_run :
+  let out := L [L [L [I 4; I 3; I 0]; L [I 6; I 7]; L [I 1; I 5]; L [I 2]]; I 1; ex_obs_shuffle] in
+  exact_ok ex_in_shuffle out = false /\
+  replay false true 6 2 Padded 10 0 (v_items ex_in_shuffle) [] (v_batches (v_nth 0 out)) = true.
+Proof. vm_compute. split; reflexivity. Qed.
+Example both_lines_reject_early_item :
+  let out := L [L [L [I 3; I 4; I 7]; L [I 6; I 0]; L [I 1; I 5]; L [I 2]]; I 1; ex_obs_shuffle] in
+  exact_ok ex_in_shuffle out = false /\
+  replay false true 6 2 Padded 10 0 (v_items ex_in_shuffle) [] (v_batches (v_nth 0 out)) = false.
+Proof. vm_compute. split; reflexivity. Qed.
+
+Definition ex_in_sortshuffle : val := L [I 1; I 1; I 3; I 4; I 1; I 9; L [I 1; I 2; I 3; I 1; I 2; I 0; I 1; I 2; I 1]].
+Definition ex_out_sortshuffle : val :=
+  L [L [L [I 1; I 4]; L [I 5; I 0; I 3; I 6]; L [I 2]; L [I 8; I 7]]; I 1;
+     L [L [L [I 4; L [I 2]]; L [I 2; L [I 0]]; L [I 2; L [I 1]]; L [I 1; L [I 0]]]]].
+Example agree_sort_shuffled_run : agree_C06 ex_in_sortshuffle (run_C06 ex_in_sortshuffle) ex_out_sortshuffle = true.
 Proof. vm_compute. reflexivity. Qed.
